@@ -48,6 +48,7 @@ class PathState:
         self.body = body
         self.prog = prog
         self.feasible = True
+        self.discr_facts = {}
         self.cut = False
         self.cur = 0
         self.env = {}        # local -> expr ; ('f', local, fieldpath) -> expr for partial writes
@@ -210,20 +211,53 @@ class PathState:
             self.assign(c.dest, res)
         elif k == 'switch' and next_block is not None:
             d = self.operand(t['discr'])
-            taken = None
-            for v, tg in zip(t['vals'], t['targets']):
-                if tg == next_block:
-                    taken = v
-            self.events.append(('branch', b, d, taken, next_block))
+            cands = [v for v, tg in zip(t['vals'], t['targets']) if tg == next_block]
+            via_otherwise = (t['otherwise'] == next_block)
+            ds = strip(d)
+            key = repr(ds[1]) if (ds[0] == 'discr' and _pure_place(ds[1])) else None
+            prev = self.discr_facts.get(key) if key else None
             known = self.known_discr(d)
+            if known is None and prev is not None and prev[0] == 'eq':
+                known = prev[1]
+            taken = None
             if known is not None:
-                if taken is None:
-                    if known in t['vals']:
-                        self.feasible = False
-                elif taken != known:
+                if known in cands:
+                    taken = known
+                elif known in t['vals'] or not via_otherwise:
                     self.feasible = False
+                    taken = cands[0] if cands else None
+            else:
+                if cands and not via_otherwise:
+                    taken = cands[0] if len(cands) == 1 else cands[0]
+                elif cands and via_otherwise:
+                    taken = cands[0]
+                if prev is not None and prev[0] == 'notin':
+                    cands2 = [v for v in cands if v not in prev[1]]
+                    if not cands2 and not via_otherwise:
+                        self.feasible = False
+                    elif cands2:
+                        taken = cands2[0]
+                    else:
+                        taken = None
+            self.events.append(('branch', b, d, taken, next_block))
+            if key:
+                if taken is not None and len(cands) == 1 and not via_otherwise:
+                    self.discr_facts[key] = ('eq', taken)
+                elif taken is None and prev is None:
+                    self.discr_facts[key] = ('notin', set(t['vals']))
         elif k == 'assert':
             pass
+
+
+def _pure_place(e, depth=0):
+    """expression is a place rooted at a parameter (fields / variants / derefs only)"""
+    if depth > 20:
+        return False
+    if e[0] == 'param':
+        return True
+    if e[0] in ('field', 'variant', 'deref', 'ref', 'refm'):
+        return _pure_place(e[1], depth + 1)
+    return False
 
 
 _PROM_CACHE = {}
